@@ -104,6 +104,18 @@ def build_cases(tier):
     ck!(b.len() == {k} && b.iter().all(|x| x == "moved2"), "box_arr![s; n] with a moved String of length {k}");
     Ok(())'''
         cases.append((f'repeat_box_clone_{k}', body, ''))
+    # repeat forms with a non-Copy element: legal Rust for lengths 0 and 1 ([x; 0], [x; 1]); x is owned exactly once
+    for k in [0, 1]:
+        body = f'''take_log(); take_drops();
+    {{ let d: GA<D, N<{k}>> = arr![ld(5); N<{k}>]; ck!(d.len() == {k}, "arr![x; N] with a drop-tracked x, length {k}");
+      ck!(take_drops().len() == 1 - {k}, "arr![x; N] (type-level length {k}): x was dropped while the array is alive"); ck!(d.iter().all(|x| x.0 == 5), "contents"); }}
+    ck!(take_drops().len() == {k} && take_log() == vec![5], "arr![x; N] (type-level length {k}) with a drop-tracked x: x must be evaluated once and dropped exactly once in total");
+    take_log(); take_drops();
+    {{ let d: GA<D, N<{k}>> = arr![ld(6); {k}]; ck!(d.len() == {k}, "arr![x; n] with a drop-tracked x, length {k}");
+      ck!(take_drops().len() == 1 - {k}, "arr![x; n] (constant length {k}): x was dropped while the array is alive"); }}
+    ck!(take_drops().len() == {k} && take_log() == vec![6], "arr![x; n] (constant length {k}) with a drop-tracked x: x must be evaluated once and dropped exactly once in total");
+    Ok(())'''
+        cases.append((f'repeat_noncopy_{k}', body, ''))
     # type-level repeat with a length typenum names but const generics cannot
     body = '''let a = arr![1u8; U4096]; ck!(a.len() == 4096 && a.iter().all(|x| *x == 1), "arr![x; U4096]");
     let b = box_arr![1u8; U4096]; ck!(*b == a, "box_arr![x; U4096]");
